@@ -117,9 +117,10 @@ def _param_dependent_stopgrads(term, pnames):
 
 # ------------------------------------------------------------------ C14
 
-def grad_faithful_ob(crit, stepwise, Hn, eval_mode=False, second_call=False, module_output=False, band=False):
-    tag = '%s,%s,H=%d%s%s%s%s' % (crit, 'prev_hedge' if stepwise else 'stateless', Hn, ',eval-mode' if eval_mode else '', ',second call' if second_call else '',
-                                  ',prev_hedge through a parameter-free ModuleOutput' if module_output else '', ',no-transaction-band model (Clamp with parameter-dependent bounds)' if band else '')
+def grad_faithful_ob(crit, stepwise, Hn, eval_mode=False, second_call=False, module_output=False, band=False, param_feature=False, scalar_bound=False):
+    tag = '%s,%s,H=%d%s%s%s%s%s%s' % (crit, 'prev_hedge' if stepwise else 'stateless', Hn, ',eval-mode' if eval_mode else '', ',second call' if second_call else '',
+                                  ',prev_hedge through a parameter-free ModuleOutput' if module_output else '', ',no-transaction-band model (Clamp with parameter-dependent bounds)' if band else '',
+                                  ',trainable ModuleOutput feature' if param_feature else '', ',Clamp with a learnable 0-dim bound' if scalar_bound else '')
 
     def check():
         t0 = time.time()
@@ -146,6 +147,27 @@ def grad_faithful_ob(crit, stepwise, Hn, eval_mode=False, second_call=False, mod
                             return Tensor.fresh(lambda idx: tm.app('G', *[rd(idx[:-1] + (tm.const(k_, 'I'),)) for k_ in range(Fn)]), x._shape[:-1] + (1,), x.dtype, x.deps)
                     feats = ['log_moneyness', ModuleOutput(ParamFree(), inputs=['prev_hedge', 'time_to_maturity'])]
                 model = H.UserModel.make(Hn, record=rec)
+                extra_params = []
+                if param_feature:
+                    # a state-independent feature with its OWN trainable parameter (an encoder in front of the model), together with prev_hedge or not
+                    from pfhedge.features import ModuleOutput
+                    enc = H.UserModel.make(1, name='E', params=('phi',))
+                    extra_params.append('phi')
+                    feats = [ModuleOutput(enc, inputs=['log_moneyness', 'time_to_maturity']), 'time_to_maturity'] + (['prev_hedge'] if stepwise else [])
+                if scalar_bound:
+                    import torch
+                    from pfv.torchlib import nn as tn_
+
+                    class Limited(torch.nn.Module):
+                        def __init__(self):
+                            super().__init__()
+                            self.net = H.UserModel.make(Hn)
+                            self.limit = tn_.make_parameter('lim', (), torch.float64)
+                            self.clamp = pnn.Clamp()
+
+                        def forward(self, x):
+                            return self.clamp(self.net(x), -self.limit, self.limit)
+                    model = Limited()
                 if band:
                     # a no-transaction-band network: the previous hedge clamped into [lo, lo + width], both produced by a parametric net
                     import torch
@@ -174,7 +196,7 @@ def grad_faithful_ob(crit, stepwise, Hn, eval_mode=False, second_call=False, mod
                     hedger.compute_loss(d, n_paths=SInt(NP))
                     del rec[:]
                 loss = _with_bisect_stub(lambda: hedger.compute_loss(d, n_paths=SInt(NP)))
-                return loss, list(rec), [p_.pname for p_ in hedger.model.parameters()] + [getattr(p_, 'pname', '?') for p_ in hedger.criterion.parameters()]
+                return loss, list(rec), [p_.pname for p_ in hedger.model.parameters()] + [getattr(p_, 'pname', '?') for p_ in hedger.criterion.parameters()] + extra_params
             paths = explore(run, hyps, max_paths=32)
         except Unsupported as e:
             return Verdict('unknown', 'engine', time.time() - t0, 'out of reach: %s' % e)
@@ -194,7 +216,7 @@ def grad_faithful_ob(crit, stepwise, Hn, eval_mode=False, second_call=False, mod
             if cut:
                 return Verdict('refuted', 'ghost connectivity', time.time() - t0, 'a parameter-dependent part of the loss is cut from the graph: %s' % tm.show(cut[0])[:300],
                                witness={'cut': tm.show(cut[0])[:400]}, sample=sample, replay=_replay_grad())
-            if stepwise and inputs and not module_output and not band:
+            if stepwise and inputs and not module_output and not band and not param_feature and not scalar_bound:
                 first = inputs[0]
                 # the zero prev_hedge at step 0 must be a fresh leaf: no graph from an earlier run
                 if first.deps - frozenset(pnames) or any(q in first.deps for q in pnames):
@@ -289,6 +311,34 @@ try:
     fd_check(hedger, d, ("band", "train"))
 except Exception as e:
     bad.append(("band", "backward failed: " + type(e).__name__))
+# parameters outside hedger.model.parameters() of the plain kind: a trainable encoder inside a ModuleOutput feature (with and without prev_hedge)
+def fd_params(hedger, d, params, tag):
+    for p in params: p.grad = None
+    hedger.criterion(hedger.compute_pl(d)).backward()
+    for p in params:
+        flat = p.data.view(-1)
+        for i in range(min(flat.numel(), 2)):
+            old = flat[i].item(); eps = 1e-6
+            flat[i] = old + eps; lp = hedger.criterion(hedger.compute_pl(d)).item()
+            flat[i] = old - eps; lm = hedger.criterion(hedger.compute_pl(d)).item()
+            flat[i] = old
+            fd = (lp - lm) / (2 * eps); g = 0.0 if p.grad is None else p.grad.view(-1)[i].item()
+            if abs(fd - g) > 1e-5 * max(1.0, abs(fd)): bad.append((tag, "finite differences %.6g, autograd %.6g" % (fd, g)))
+for with_prev in (False, True):
+    und = BrownianStock(sigma=0.3, dt=0.01, cost=1e-3, dtype=torch.float64); d = EuropeanOption(und, maturity=0.06); d.simulate(n_paths=16)
+    enc = torch.nn.Sequential(torch.nn.Linear(2, 2), torch.nn.Tanh()).double()
+    feats = [ModuleOutput(enc, inputs=["log_moneyness", "time_to_maturity"]), "time_to_maturity"] + (["prev_hedge"] if with_prev else [])
+    hedger = pnn.Hedger(torch.nn.Linear(3 + (1 if with_prev else 0), 1).double(), feats, criterion=pnn.EntropicRiskMeasure())
+    fd_params(hedger, d, list(enc.parameters()), ("trainable feature module", "prev_hedge" if with_prev else "stateless"))
+# Clamp with a learnable 0-dim bound
+class Limited(torch.nn.Module):
+    def __init__(self):
+        super().__init__()
+        self.net = torch.nn.Linear(2, 1).double(); self.limit = torch.nn.Parameter(torch.tensor(0.35, dtype=torch.float64)); self.clamp = pnn.Clamp()
+    def forward(self, x): return self.clamp(self.net(x) * 3.0, -self.limit, self.limit)
+und = BrownianStock(sigma=0.3, dt=0.01, cost=1e-3, dtype=torch.float64); d = EuropeanOption(und, maturity=0.06); d.simulate(n_paths=32)
+lim = Limited(); hedger = pnn.Hedger(lim, ["log_moneyness", "time_to_maturity"], criterion=pnn.EntropicRiskMeasure())
+fd_params(hedger, d, [lim.limit], ("learnable 0-dim clamp bound",))
 # a criterion with its own trainable parameter: evaluation-only loss must carry no graph
 from pfhedge.nn.modules.loss import OCE
 und = BrownianStock(dtype=torch.float64); d = EuropeanOption(und)
@@ -320,6 +370,10 @@ def c14_obligations(seed, tier='quick'):
     obs.append(grad_faithful_ob('entropic_risk', True, 1, module_output=True))
     obs.append(grad_faithful_ob('entropic_risk', True, 1, band=True))
     obs.append(grad_faithful_ob('expected_shortfall', True, 1, band=True))
+    obs.append(grad_faithful_ob('entropic_risk', True, 1, param_feature=True))
+    obs.append(grad_faithful_ob('entropic_risk', False, 1, param_feature=True))
+    obs.append(grad_faithful_ob('entropic_risk', False, 1, scalar_bound=True))
+    obs.append(grad_faithful_ob('expected_shortfall', True, 1, scalar_bound=True))
     obs.append(no_graph_ob('price'))
     obs.append(no_graph_ob('compute_loss(enable_grad=False)'))
     # a criterion that owns a trainable parameter (OCE's w): evaluation-only quantities must still carry no graph
